@@ -375,12 +375,12 @@ class CdcDesign:
                         self.stmt_v(s, ind + 1, out)
                 out.append("%s}" % p)
             elif it[0] == "inst":
-                out.append("%sinst u%d: %s (" % (p, len(self.item_lines), it[2]))
+                out.append("%sinst ui%d: %s (" % (p, len(self.item_lines), it[2]))
                 for (port, _, _, e) in it[3]:
                     out.append("%s    %s: %s," % (p, port, self.expr_v(e)))
                 out.append("%s);" % p)
             elif it[0] == "sv":
-                out.append("%sinst u%d: $sv::Blk%d (" % (p, len(self.item_lines), len(it[2])))
+                out.append("%sinst ui%d: $sv::Blk%d (" % (p, len(self.item_lines), len(it[2])))
                 for i, s in enumerate(it[2]):
                     out.append("%s    p%d: %s," % (p, i, self.sigs[s]["name"]))
                 out.append("%s);" % p)
@@ -600,11 +600,18 @@ class CdcGen:
         return self.expr(self.rng.choice([0, 1, 1, 2, 2, 3]), self.ddom(dst))
 
     def cond_for(self, dom):
-        """statement condition; never a compile-time constant (the converter drops dead branches)"""
+        """statement condition; contains no literal, so that it cannot fold to a compile-time
+        constant (the converter drops statically dead branches without analysing them)"""
         rng = self.rng
-        for _ in range(20):
+
+        def has_const(e):
+            if isinstance(e, tuple) and e and e[0] == "const":
+                return True
+            return isinstance(e, (tuple, list)) and any(has_const(x) for x in e)
+
+        for _ in range(30):
             e = self.expr(rng.choice([0, 0, 1]), dom)
-            if "SSig" in self.d.expr_coq(e):
+            if not has_const(e) and "SSig" in self.d.expr_coq(e):
                 return e
         p = self.pool(dom) or self.readable
         return ("sig", rng.choice(p))
